@@ -19,6 +19,9 @@ pub struct Case {
     /// hand-written program text (regression inputs); overrides prog / layout
     #[serde(default)]
     pub text: Option<String>,
+    /// the statements come from the typed generator and follow its prelude (closed program)
+    #[serde(default)]
+    pub typed: bool,
 }
 
 pub const WIDTHS: [u16; 11] = [1, 2, 5, 10, 20, 30, 40, 60, 80, 100, 120];
@@ -97,7 +100,10 @@ pub fn render(c: &Case, with_comments: bool) -> Rendered {
     let mut pr = Printer::new(mode, Tape::new(&c.layout));
     pr.comments = with_comments;
     pr.redundancy = true;
-    let text = pr.program(&c.prog);
+    let mut text = pr.program(&c.prog);
+    if c.typed {
+        text = format!("{}{}", crate::gen_::typed::PRELUDE, text);
+    }
     let (comments, comment_kinds) = in_text_order(&text, &pr.inserted, &pr.inserted_kinds);
     Rendered {
         text,
@@ -120,6 +126,22 @@ pub fn strategy(max_stmts: usize, depth: usize) -> BoxedStrategy<Case> {
             width,
             cli,
             text: None,
+            typed: false,
+        })
+        .boxed()
+}
+
+/// closed programs from the typed generator (for the evaluation comparison)
+pub fn typed_strategy() -> BoxedStrategy<Case> {
+    (
+        prop::collection::vec(any::<u16>(), 0..260),
+        prop::collection::vec(any::<u16>(), 0..260),
+        prop_oneof![3 => prop::sample::select(WIDTHS.to_vec()), 1 => 1u16..130],
+        prop::bool::weighted(0.05),
+    )
+        .prop_map(|(t, layout, width, cli)| {
+            let (prog, _) = crate::gen_::typed::program(&mut Tape::new(&t), 5, 5, false);
+            Case { prog, layout, width, cli, text: None, typed: true }
         })
         .boxed()
 }
@@ -310,6 +332,7 @@ pub fn fuzz_one(tape: &[u16]) -> crate::engine::Outcome {
         width: widths[tape[0] as usize % widths.len()],
         cli: false,
         text: None,
+        typed: false,
     };
     static KNOWN: std::sync::OnceLock<crate::engine::KnownFile> = std::sync::OnceLock::new();
     let known = KNOWN.get_or_init(|| crate::engine::load_known("/verif/known_findings.json"));
